@@ -326,13 +326,48 @@ def gen_ops(rng, root, env, n, profile="mixed", bad=0.3):
                 src, snd = rng.choice(twins)
             elif same and rng.random() < 0.7:
                 src, snd = rng.choice(same)
-            ops.append({"op": "copy", "src": src, "dst": dst, "route": rng.choice(["attr", "item"])})
+            op = {"op": "copy", "src": src, "dst": dst, "route": rng.choice(["attr", "item"])}
+            if "[]" in dst and dnd["family"] in ("list", "dict") and rng.random() < 0.6:
+                # the same field of ANOTHER item of the same list (one field object, two configurations)
+                op["src"], op["src_shift"] = dst, 1
+            ops.append(op)
         elif kind == "set_dynamic":
             dyn = [""] + [p for p, nd in subs if "[]" not in p]
             p = rng.choice(dyn)
             ops.append({"op": "set", "route": "attr", "path": (p + "." if p else "") + rng.choice(["extra1", "extra2", "zz9"]),
                         "value": rng.choice([1, "x", [1, 2], {"a": 1}, None]), "dynamic": True})
     return ops
+
+
+def alias_probe_ops(rng, schema, env):
+    """Operation sequences that would expose a typed list / dict value stored by reference in two items of one list of
+    configurations: fill the list with two items, assign the live value of one item's field to the same field of the
+    other item, change it in place."""
+    out = []
+    for path, nd in all_paths(schema):
+        if path.count("[]") != 1 or nd["kind"] != "field" or nd["family"] not in ("list", "dict") or not _typed(nd):
+            continue
+        if nd["family"] == "list" and nd["item"]["kind"] != "field":
+            continue
+        list_path = path[: path.index("[]")]
+        if "." in path[path.index("[]") + 3:]:
+            continue
+        lnode = spec.node_at(schema, list_path)
+        items = [gen.tree_for(rng, lnode["item"], env, valid=True, partial=0.0) for _ in range(2)]
+        if not all(model.accepts_tree(lnode["item"], t, env)[0] is True and nd["key"] in t and t[nd["key"]] for t in items):
+            continue
+        seq = [{"op": "set", "route": "attr", "path": list_path, "value": items},
+               {"op": "copy", "src": path, "dst": path, "src_shift": 1, "route": "attr"}]
+        if nd["family"] == "list":
+            x = gen.one_value(rng, nd["item"], "valid", env)
+            seq.append({"op": "listop", "path": path, "name": "append", "i": 0, "n": 1, "iter": "list", "a": None, "b": None, "x": x, "xs": [x]})
+        else:
+            kf, vf = nd.get("keyf"), nd.get("valf")
+            k = gen.one_value(rng, kf, "valid", env) if kf else "zq%d" % rng.randrange(9)
+            v = gen.one_value(rng, vf, "valid", env) if vf else 1
+            seq.append({"op": "dictop", "path": path, "name": "setitem", "kv": [k, v], "pairs": [[k, v]], "kind": "dict"})
+        out.append(seq)
+    return out
 
 
 # ------------------------------------------------------------------------------------------------
@@ -353,7 +388,7 @@ class Driver:
     def snapshot(self, cfg=None):
         return Snapshot(cfg if cfg is not None else self.cfg)
 
-    def concrete(self, path, cfg=None):
+    def concrete(self, path, cfg=None, shift=0):
         """Resolve '[]' placeholders against current list lengths; None when impossible."""
         cfg = cfg if cfg is not None else self.cfg
         out, cur = [], cfg
@@ -366,7 +401,7 @@ class Driver:
             if seg.endswith("[]"):
                 if not isinstance(cur, list) or len(cur) == 0:
                     return None
-                i = (len(path) + len(cur)) % len(cur)
+                i = (len(path) + len(cur) + shift) % len(cur)
                 cur = cur[i]
                 out.append("%s[%d]" % (name, i))
             else:
@@ -580,6 +615,61 @@ class Driver:
         return {"kind": "set", "path": path, "raised": exc, "label": False, "pred": pred, "before": before,
                 "listed": True, "node": nd, "reuse": True}
 
+    def _op_set_grown_copy(self, op):
+        """Assign to a typed list / dict field a typed container derived from the one it holds (proxy + [x], proxy.copy()
+        grown by one entry, proxy | {...}) - or the plain equivalent - that the field's own validator callback rejects
+        for its size."""
+        cc, cfg = self.cc, self.cfg
+        path = self.concrete(op["path"])
+        if path is None:
+            return None
+        nd = self.node(path)
+        try:
+            cur = spec.get_path(cfg, path)
+        except Exception:
+            return None
+        if nd is None or nd["kind"] != "field" or not isinstance(cur, (cc.ListProxy, cc.DictProxy)) or len(cur) < 2:
+            return None
+        how = op["how"]
+        try:
+            if isinstance(cur, cc.ListProxy):
+                x = spec.realize(cc, op["x"])
+                if how == "add":
+                    new = cur + [x]
+                elif how == "copy":
+                    new = cur.copy()
+                    new.append(x)
+                else:
+                    new = list(cur) + [x]
+            else:
+                k, v = spec.realize(cc, op["kv"][0]), spec.realize(cc, op["kv"][1])
+                if k in cur:
+                    return None
+                if how == "add":
+                    new = cur | {k: v}
+                elif how == "copy":
+                    new = cur.copy()
+                    new[k] = v
+                else:
+                    new = dict(cur)
+                    new[k] = v
+        except Exception:
+            return None
+        parent_path, key = spec.split_parent(path)
+        try:
+            parent = spec.get_path(cfg, parent_path) if parent_path else cfg
+        except Exception:
+            return None
+        before = self.snapshot()
+        if op.get("route") == "item" and "[" not in path:
+            exc = self._run(lambda: cfg.__setitem__(path, new))
+        else:
+            exc = self._run(lambda: setattr(parent, key, new))
+        pred = Prediction(None, None)
+        pred.unpredicted = True
+        return {"kind": "set", "path": path, "raised": exc, "label": None, "pred": pred, "before": before,
+                "listed": True, "node": nd, "grown_copy": how}
+
     def _op_set_dict_dotted(self, op):
         """cfg['path.to.dict.key'] = value: a dotted path that continues into a typed dict value."""
         cc, cfg = self.cc, self.cfg
@@ -594,7 +684,7 @@ class Driver:
         if nd is None or nd["kind"] != "field" or nd["family"] != "dict" or not isinstance(cur, dict):
             return None
         k, v = op["kv"]
-        if not isinstance(k, str) or "." in k or not k:
+        if not isinstance(k, str) or ("." in k and not op.get("deep")) or not k:
             return None
         kf, vf = nd.get("keyf"), nd.get("valf")
         a = model.accepts(kf, k, self.env)[0] if kf else True
@@ -609,7 +699,7 @@ class Driver:
 
     def _op_copy(self, op):
         cc, cfg = self.cc, self.cfg
-        src, dst = self.concrete(op["src"]), self.concrete(op["dst"])
+        src, dst = self.concrete(op["src"], shift=op.get("src_shift", 0)), self.concrete(op["dst"])
         if src is None or dst is None or src == dst:
             return None
         nd = self.node(dst)
